@@ -33,7 +33,7 @@ ASSUMPTIONS = [
     "Float rounding is not modelled; the verdict is about the implemented formula, not floating-point results.",
 ]
 EXHAUSTIVE = True
-FLOORS = {"R12.1": 400, "R12.2": 17, "R12.3": 1, "R12.4": 7, "R12.5": 200}
+FLOORS = {"R12.1": 400, "R12.2": 17, "R12.3": 1, "R12.4": 7, "R12.5": 200, "R12.6": 12}
 
 PX = {"": Fraction(1), "px": Fraction(1), "pt": Fraction(4, 3), "pc": Fraction(16)}
 INCH = {"in": Fraction(1), "cm": Fraction(100, 254), "mm": Fraction(10, 254)}
@@ -75,6 +75,8 @@ def run(ctx):
     ctx.rule("R12.3", "no min/max call with syntactically identical arguments")
     ctx.rule("R12.4", "ordering/subtraction/negation plumbing")
     ctx.rule("R12.5", "__eq__ compares like with like")
+    ctx.rule("R12.6", "resolution context (ppi, relative_length, font_size, font_height, viewbox) is handed on slot by slot")
+    context_plumbing(ctx)
     iadd(ctx)
     truediv(ctx)
     unary_tables(ctx)
@@ -365,6 +367,56 @@ def to_units(ctx):
         bad = [b for b in uses if not dominated(b, fn, is_number)]
         ctx.ob("R12.2", qual + "[unresolved stays as it is]", bool(uses) and not bad, "; ".join("line %d: %s" % (b.lineno, ast.unparse(b)[:40]) for b in bad), fn.lineno,
                "value() returns the Length unchanged when the context is missing; converting that anyway returns a different symbolic length (to_mm of '50%' gave '13.229%')")
+
+
+CTX_PARAMS = ("ppi", "relative_length", "font_size", "font_height", "viewbox")
+
+
+def context_plumbing(ctx):
+    """A method of Length that receives a piece of the resolution context under its own name and calls another method taking
+    the same piece must hand it on in that slot: keyword k=<parameter k>, or the positional slot of k.  A different parameter in
+    the slot (font_height=font_size) resolves ex against the em size; a dropped one leaves the unit unresolved."""
+    cls = ctx.m.cls("Length", "R12.6")
+    n = 0
+    for name, fn in sorted(cls.methods.items()):
+        params = [a.arg for a in fn.args.args + fn.args.kwonlyargs]
+        mine = [p for p in params if p in CTX_PARAMS]
+        if not mine:
+            continue
+        rebound = {t.id for t in ast.walk(fn) if isinstance(t, ast.Name) and isinstance(t.ctx, ast.Store)}
+        for c in ast.walk(fn):
+            if not (isinstance(c, ast.Call) and isinstance(c.func, ast.Attribute) and c.func.attr in cls.methods):
+                continue
+            callee = cls.methods[c.func.attr]
+            cparams = [a.arg for a in callee.args.args]
+            if cparams and cparams[0] in ("self", "cls") and not (isinstance(c.func.value, ast.Name) and c.func.value.id == "Length"):
+                cparams = cparams[1:]
+            ckw = [a.arg for a in callee.args.kwonlyargs]
+            if any(isinstance(a, ast.Starred) for a in c.args) or any(k.arg is None for k in c.keywords):
+                continue
+            given = {}
+            for pn, a in zip(cparams, c.args):
+                given[pn] = a
+            for k in c.keywords:
+                given[k.arg] = k.value
+            for p in mine:
+                if p not in cparams and p not in ckw:
+                    continue
+                n += 1
+                v = given.get(p)
+                cons = "Length.%s[%s -> %s(%s=)]" % (name, p, c.func.attr, p)
+                on_self = isinstance(c.func.value, ast.Name) and c.func.value.id == "self"
+                if v is None:
+                    if on_self:
+                        ctx.ob("R12.6", cons, False, "not passed", c.lineno, "a piece of the resolution context the caller supplied is dropped on the way to the method that resolves the same length")
+                    # another Length object (relative_length * self) is resolved in its own right: what it needs is not decided here
+                    continue
+                if not isinstance(v, ast.Name) or (v.id not in params and v.id != p):
+                    continue  # a local or an expression computed in the function: not decided here
+                ok = v.id == p and p not in rebound
+                ctx.ob("R12.6", cons, ok, "%s=%s" % (p, ast.unparse(v)[:40]), c.lineno,
+                       "the slot receives something other than the caller's value for it")
+    ctx.need(n >= 1, "R12.6", "no context hand-over found in Length")
 
 
 def degenerate_calls(ctx):
